@@ -186,12 +186,21 @@ func (e *c08Env) configure(s *res.Service, r *rand.Rand) {
 	}
 	// direct patterns, listeners through Handler.Listeners option and AddListener
 	mo := opts("m")
-	if r.Intn(2) == 0 {
+	switch r.Intn(3) {
+	case 0:
 		n := e.nlisten["m"]
 		mo = append(mo, res.OptionFunc(func(h *res.Handler) {
 			h.Listeners = map[string]func(*res.Event){"m.$id": listener("m", n)}
 		}))
 		e.nlisten["m"]++
+	case 1:
+		// the Listeners map is keyed by the pattern listened on, which need not be the handler's own
+		n, nc := e.nlisten["m"], e.nlisten["c"]
+		mo = append(mo, res.OptionFunc(func(h *res.Handler) {
+			h.Listeners = map[string]func(*res.Event){"m.$id": listener("m", n), "c.$id": listener("c", nc)}
+		}))
+		e.nlisten["m"]++
+		e.nlisten["c"]++
 	}
 	s.Handle("m.$id", mo...)
 	addL(s.Mux, "m", "m.$id")
